@@ -24,7 +24,7 @@ def clause_pool(verb, rng):
     if verb == "framer":
         return {"be": "be " + rng.choice(["active", "inactive", "aux", "slave"]), "at": "at " + rng.choice(["0.25", "1", "0.5"]),
                 "in": "in " + rng.choice(["front", "mid", "back"]), "first": "first " + rng.choice(["a", "b"]),
-                "via": "via " + rng.choice([".x.y.", "boo.", ".z."])}
+                "via": "via " + rng.choice([".x.y.", "boo.", ".z.", "boo of framer", "boo of framer fx", "boo of me"])}
     if verb == "frame":
         return {"in": "in a", "via": "via " + rng.choice([".x.y.", "boo."])}
     if verb == "do":
